@@ -49,6 +49,8 @@ fn alphabet() -> Vec<Spec> {
         n("didOpen(b,caller-with-unknown-formal)", did_open(B, 1, &caller)),
         n("didOpen(a,caller-with-unknown-formal)", did_open(A, 1, &caller)),
         n("didOpen(b,callee)", did_open(B, 1, CALLEE)),
+        n("didOpen(a,empty)", did_open(A, 1, "")),
+        n("didOpen(b,no-highlighted-lexeme)", did_open(B, 1, "\n ( 1 , 2 ) ;\n")),
         n("didOpen(a,V)", did_open(A, 1, V)),
         n("didOpen(a,X)", did_open(A, 1, X)),
         n("didOpen(b,V)", did_open(B, 1, V)),
